@@ -13,11 +13,6 @@ variable {α : Type} [Field α] [LinearOrder α]
 
 /-! ## Agreement with applying the reactions -/
 
-theorem hasReaction_false_x (b : RVal α) (r : Nat) (hb : b.v.getD r 0 = -1) (h : b.hasReaction = false) :
-    b.x = 0 := by
-  have hz : allZero b.v = false := allZero_false_of_getD_ne b.v r (by rw [hb]; simp)
-  simpa [RVal.hasReaction, hz] using h
-
 /-- **add_is_parallel.**  For reactions `a`, `b` with the same reactant (same basis label, same phases),
 both normalised on it, and `X_a + X_b ≠ 0`: applying `a + b` to any feed gives the same products as
 applying `a` and `b` in parallel. -/
@@ -157,10 +152,55 @@ theorem operands_unchanged (s s' : Store α) (op : Op α) (k : Nat) (hop : op.in
         rw [← h.1]
         exact ⟨List.prefix_append _ _, List.prefix_append _ _, List.prefix_append _ _, rfl, rfl⟩
 
-/-- the operations whose result must not share anything with what exists: the arithmetic, `copy`,
-`backwards`, the constructors (everything `pureOp` covers) and `reduce` -/
-def makesFresh (s : Store α) (op : Op α) : Prop :=
-  (s.pureOp op).isSome ∨ ∃ sid order, op = .reduce sid order
+/-- In a well-formed store, a store extension shows every old reaction (and every member of every old set)
+with the value it had: stoichiometry contents, reactant, conversion, basis, phases. -/
+theorem operands_keep_value (s s' : Store α) (hwf : s.WF) (e : s.Extends s') :
+    (∀ id r, s.rxn? id = .ok r → s'.rxn? id = .ok r ∧ s'.val r = s.val r) ∧
+    (∀ id t, s.set? id = .ok t → s'.set? id = .ok t ∧ s'.setVals t = s.setVals t) := by
+  have hobj : ∀ (id : Nat) (o : Obj α), s.objs[id]? = some o → s'.objs[id]? = some o := by
+    intro id o h
+    obtain ⟨t, ht⟩ := e.objs
+    rw [← ht, List.getElem?_append_left (List.getElem?_eq_some_iff.mp h).1, h]
+  have harr : ∀ id, id < s.arrs.length → s'.arr id = s.arr id := fun id h =>
+    getD_prefix _ _ _ e.arrs id h
+  have hx : ∀ xa, xa < s.xarrs.length → s'.xarrs.getD xa [] = s.xarrs.getD xa [] := fun xa h =>
+    getD_prefix _ _ _ e.xarrs xa h
+  constructor
+  · intro id r h
+    have hw := rxn_wf_of_ok hwf h
+    refine ⟨rxn?_of_getElem? (hobj id _ (rxn?_ok h)), ?_⟩
+    simp only [Store.val, harr r.nu hw.1]
+    congr 1
+    cases hrx : r.x with
+    | own x => rfl
+    | shared xa i =>
+      have := hw.2; rw [hrx] at this
+      show (s'.xarrs.getD xa []).getD i 0 = (s.xarrs.getD xa []).getD i 0
+      rw [hx xa this.1]
+  · intro id t h
+    obtain ⟨h1, h2, _, _⟩ := set_wf_of_ok hwf h
+    refine ⟨by simp [Store.set?, hobj id _ (set?_ok h)], ?_⟩
+    simp only [Store.setVals]
+    apply List.map_congr_left
+    intro i hi
+    rw [List.mem_range] at hi
+    have : t.rows.getD i 0 < s.arrs.length := by
+      rw [getD_of_lt' _ _ _ hi]; exact h1 _ (List.getElem_mem hi)
+    rw [harr _ this, hx t.xa h2]
+
+/-- **operands_unchanged**, in terms of values: after a non-in-place operation every reaction and every set
+that existed reads exactly as before. -/
+theorem operands_unchanged_values (s s' : Store α) (op : Op α) (k : Nat) (hwf : s.WF)
+    (hop : op.inPlace = false) (h : s.step op = .ok (s', k)) :
+    (∀ id r, s.rxn? id = .ok r → s'.rxn? id = .ok r ∧ s'.val r = s.val r) ∧
+    (∀ id t, s.set? id = .ok t → s'.set? id = .ok t ∧ s'.setVals t = s.setVals t) :=
+  operands_keep_value s s' hwf (operands_unchanged s s' op k hop h)
+
+/-- Every store reached from an empty package store by any list of operations is well-formed, so the
+theorems that assume `WF` hold along every history. -/
+theorem reachable_wf (nchem : Nat) (mw : List α) (ops : List (Op α)) :
+    (Store.run ({ nchem := nchem, mw := mw } : Store α) ops).WF :=
+  run_wf ops _ (by intro o ho; simp at ho)
 
 /-- **fresh_result.**  The result of an arithmetic operation, `copy`, `backwards` or `reduce` is a new
 object (its id is the next free one), and every stoichiometry array and X array it holds was allocated
@@ -193,58 +233,6 @@ theorem fresh_result_disjoint (s s' : Store α) (op : Op α) (k : Nat) (hwf : s.
   · have := wf_xIds (hwf old hold) id hc; have := h2 id hid; omega
 
 /-! ## In-place forms equal the binary forms -/
-
-/-- what an operation leaves behind, as a value: the fields of the object it returns (or the error) -/
-def outcome (s : Store α) (op : Op α) : Except Err (RVal α) :=
-  match s.step op with
-  | .error e => .error e
-  | .ok (s', k) => s'.valOf k
-
-theorem lt_of_rxn? {s : Store α} {a : Nat} {r : Rxn α} (h : s.rxn? a = .ok r) : a < s.objs.length := by
-  have := rxn?_ok h
-  exact (List.getElem?_eq_some_iff.mp this).1
-
-theorem outcome_pure (s : Store α) (op : Op α) (r : Except Err (RVal α)) (hp : s.pureOp op = some r) :
-    outcome s op = r := by
-  unfold outcome
-  rw [step_pure s op r hp]
-  cases r with
-  | error e => rfl
-  | ok a => simp [Except.bind, newRxn_valOf]
-
-theorem iaddSub_eq_binary (s : Store α) (hwf : s.WF) (sub : Bool) (a : Nat) (b : Option Nat) :
-    outcome s (if sub then .isub a b else .iadd a b) = outcome s (if sub then .sub a b else .add a b) := by
-  have hR : outcome s (if sub then .sub a b else .add a b)
-      = (do (← s.valOf a).addSub s.mw sub (← s.optVal b)) := by
-    cases sub <;> exact outcome_pure s _ _ rfl
-  have hL : outcome s (if sub then .isub a b else .iadd a b)
-      = (match s.iaddSubOp sub a b with | .error e => .error e | .ok (s', k) => s'.valOf k) := by
-    cases sub <;> rfl
-  rw [hR, hL]
-  unfold Store.iaddSubOp
-  cases hra : s.rxn? a with
-  | error e => simp [valOf_error hra, bind, Except.bind]
-  | ok ra =>
-    rw [valOf_of_rxn? hra]
-    have ha := lt_of_rxn? hra
-    have hx := (rxn_wf_of_ok hwf hra).2
-    cases hb : s.optVal b with
-    | error e => simp [bind, Except.bind]
-    | ok ob =>
-      cases ob with
-      | none => simp [bind, Except.bind, RVal.addSub, valOf_of_rxn? hra]
-      | some vb =>
-        cases hre : vb.hasReaction
-        · simp [bind, Except.bind, addSub_noReaction _ _ _ _ hre, hre, valOf_of_rxn? hra]
-        · simp only [bind, Except.bind, hre, Bool.not_true, Bool.false_eq_true, if_false]
-          cases hr : (s.val ra).addSub s.mw sub (some vb) with
-          | error e => rfl
-          | ok r =>
-            obtain ⟨h1, h2, h3⟩ := addSub_fields _ _ _ _ _ hr
-            simp only []
-            rw [rebind_valOf s a ra r.v r.x ha hx]
-            congr 1
-            apply RVal.ext <;> simp [Store.val] at * <;> simp [*]
 
 /-- **inplace_eq_binary** (`+=` / `+`).  In a well-formed store `a += b` leaves in `a` exactly the reaction that
 `a + b` returns (same stoichiometry, reactant, conversion, basis, phases), and fails exactly when it does. -/
@@ -287,9 +275,6 @@ theorem inplace_eq_binary_div (s : Store α) (hwf : s.WF) (a : Nat) (k : α) :
       · simp at hr; subst hr; simp [RVal.smul, Store.val]
 
 /-! ## A reaction item and its set share the conversion -/
-
-/-- cell `i` of X array `xa` -/
-def cell (s : Store α) (xa i : Nat) : α := (s.xarrs.getD xa []).getD i 0
 
 /-- `set[i]` is an object that refers to the set's own row array and to cell `i` of the set's X array -/
 theorem item_refers_to_set (s s1 : Store α) (sid i k : Nat) (t : RSet) (ht : s.set? sid = .ok t)
@@ -434,5 +419,136 @@ theorem inplace_frame (s s' : Store α) (op : Op α) (a k : Nat)
     simp at h; obtain ⟨rfl, rfl⟩ := h
     obtain ⟨h1, h2, h3⟩ := hw ra _
     exact ⟨rfl, h1, h2, fun r hr => by rw [hra] at hr; cases hr; exact h3⟩
+
+/-! ## Normalisation is an invariant of everything the operations return -/
+
+/-- **results_normalised.**  If every reaction in the store is normalised on its reactant (`ν[r] = -1`) or
+empty, so is the value returned by the constructor, `copy`, `+`, `-`, `*`, `/`, `neg` and `backwards`.
+This discharges the normalisation hypotheses of `add_is_parallel` / `sub_cancels` for all values that
+arise from operations. -/
+theorem results_normalised (s : Store α) (op : Op α) (a : RVal α)
+    (hin : ∀ id r, s.rxn? id = .ok r → (s.val r).Normal) (h : s.pureOp op = some (.ok a)) : a.Normal := by
+  cases op <;> simp only [Store.pureOp, Option.some.injEq, reduceCtorEq] at h
+  case new ph basis c x v =>
+    simp only [bind, Except.bind] at h
+    split at h; · simp at h
+    rename_i v' hv
+    simp [pure, Except.pure] at h; subst h
+    exact Or.inl (rescale_normal _ _ _ hv)
+  case empty basis c x =>
+    cases h
+    right; simp [allZero]
+  case copy a0 b =>
+    simp only [bind, Except.bind] at h
+    split at h; · simp at h
+    rename_i v0 hv0
+    exact (copyB_normal s.mw v0 a b (valOf_normal s hin a0 v0 hv0) h).1
+  case add a0 b =>
+    simp only [bind, Except.bind] at h
+    split at h; · simp at h
+    rename_i v0 hv0
+    split at h; · simp at h
+    exact addSub_normal s.mw false v0 _ a (valOf_normal s hin a0 v0 hv0) h
+  case sub a0 b =>
+    simp only [bind, Except.bind] at h
+    split at h; · simp at h
+    rename_i v0 hv0
+    split at h; · simp at h
+    exact addSub_normal s.mw true v0 _ a (valOf_normal s hin a0 v0 hv0) h
+  case mul a0 k =>
+    simp only [bind, Except.bind] at h
+    split at h; · simp at h
+    rename_i v0 hv0
+    simp [pure, Except.pure] at h; subst h
+    exact valOf_normal s hin a0 v0 hv0
+  case div a0 k =>
+    simp only [bind, Except.bind] at h
+    split at h; · simp at h
+    rename_i v0 hv0
+    unfold RVal.sdiv at h
+    split at h; · simp at h
+    simp at h; subst h
+    exact valOf_normal s hin a0 v0 hv0
+  case neg a0 =>
+    simp only [bind, Except.bind] at h
+    split at h; · simp at h
+    rename_i v0 hv0
+    simp [pure, Except.pure] at h; subst h
+    exact valOf_normal s hin a0 v0 hv0
+  case backwards a0 r x =>
+    simp only [bind, Except.bind] at h
+    split at h; · simp at h
+    exact backwards_normal s.nchem _ a r x h
+
+/-- The `basis` setter is the one operation that modifies an existing stoichiometry array: exactly the array
+of its own object (so a set built from that reaction sees the new numbers), nothing else. -/
+theorem setBasis_frame (s s' : Store α) (a k : Nat) (b : BArg) (h : s.step (.setBasis a b) = .ok (s', k)) :
+    k = a ∧ s'.xarrs = s.xarrs ∧ (∀ id, id ≠ a → s'.objs[id]? = s.objs[id]?) ∧
+    ∃ r, s.rxn? a = .ok r ∧ s'.arrs.length = s.arrs.length ∧ ∀ aid, aid ≠ r.nu → s'.arrs[aid]? = s.arrs[aid]? := by
+  simp only [Store.step, Store.pureOp, Store.setBasisOp] at h
+  split at h
+  · simp at h
+  · simp at h
+  · rename_i ra hra
+    split at h; · simp at h
+    split at h; · simp at h
+    simp only [Except.ok.injEq, Prod.mk.injEq] at h
+    obtain ⟨rfl, rfl⟩ := h
+    refine ⟨rfl, rfl, fun id hid => by simp [List.getElem?_set_ne (Ne.symm hid)], ra, rxn?_of_getElem? hra, by simp,
+      fun aid haid => by simp [List.getElem?_set_ne (Ne.symm haid)]⟩
+
+/-! ## Non-vacuity: concrete rational instances meet the hypotheses (evaluated by the kernel; these are
+tests of satisfiability on samples, not part of the proofs above) -/
+
+section Examples
+
+/-- Glucose + O2 → Ethanol + CO2 and Glucose + O2 → Water + CO2 over (Water, Ethanol, Glucose, CO2, O2) -/
+def exA : RVal ℚ := ⟨[0, 1, -1, 1, -1], 2, 1/2, .mol, 0⟩
+def exB : RVal ℚ := ⟨[1, 0, -1, 1, -1], 2, 1/4, .mol, 0⟩
+def exFeed : List ℚ := [1, 2, 4, 8, 16]
+
+def okVal (r : Except Err (RVal ℚ)) (f : RVal ℚ → Bool) : Bool :=
+  match r with | .ok c => f c | .error _ => false
+
+/-- the hypotheses of `add_is_parallel` hold for `exA`, `exB`, `exFeed`, the sum exists, and it is a third
+reaction (0.667 Ethanol + 0.333 Water, X = 3/4) that changes the feed -/
+example :
+    (decide (exB.basis = exA.basis) && decide (exA.ph = exB.ph) && decide (exA.ridx = exB.ridx)
+      && decide (exA.v.length = exFeed.length) && decide (exB.v.length = exFeed.length)
+      && decide (exA.v.getD exA.ridx 0 = -1) && decide (exB.v.getD exB.ridx 0 = -1)
+      && decide (exA.x + exB.x ≠ 0) && exB.hasReaction
+      && okVal (exA.addSub [] false (some exB)) (fun c =>
+          decide (c.v = [1/3, 2/3, -1, 1, -1]) && decide (c.x = 3/4)
+          && decide (react c.v c.ridx c.x exFeed = [2, 4, 1, 11, 13]))) = true := by decide +kernel
+
+/-- `(a + b) - b` exists for these operands (hypotheses of `sub_cancels`: `X_a ≠ 0`, `X_a + X_b ≠ 0`) -/
+example :
+    okVal (exA.addSub [] false (some exB)) (fun c =>
+      decide (c.v ≠ exA.v) && okVal (c.addSub [] true (some exB)) (fun d => decide (d.v = exA.v) && decide (d.x = exA.x)))
+      = true := by decide +kernel
+
+/-- a reachable store with two reactions, the set built from them, an item of the set, the sum, and an
+in-place sum on the item -/
+def exStore : Store ℚ := Store.run { nchem := 5, mw := [18, 46, 180, 44, 32] }
+  [.new 0 .mol 2 (1/2) [0, 2, -2, 2, -2], .new 0 .mol 2 (1/4) [1, 0, -1, 1, -1], .mkSet [0, 1], .item 2 1,
+   .add 0 (some 1), .iadd 3 (some 0), .copy 0 .wt]
+
+example : exStore.WF := reachable_wf 5 _ _
+
+/-- the store really contains what the theorems talk about: 6 objects; object 3 is an item reading cell 1 of
+X array 0, rebound by `+=` to a fresh array (id ≥ 3); object 4 is the sum with its own array; `makesFresh` and
+`inPlace = false` operations succeed on it -/
+example :
+    (decide (exStore.objs.length = 6)
+      && (match exStore.objs[3]? with
+          | some (Obj.rxn r) => (match r.x with | .shared xa i => xa == 0 && i == 1 | .own _ => false) && decide (3 ≤ r.nu)
+          | _ => false)
+      && decide (cell exStore 0 1 = 3/4)
+      && (match exStore.step (.sub 4 (some 1)) with | .ok (_, k) => k == 6 | .error _ => false)
+      && (match exStore.step (.reduce 2 [2]) with | .ok (_, k) => k == 6 | .error _ => false)
+      && (match exStore.step (.backwards 1 (some 0) none) with | .ok (_, k) => k == 6 | .error _ => false)
+      && (match exStore.step (.setX 3 (1/8)) with | .ok (_, k) => k == 3 | .error _ => false)) = true := by decide +kernel
+
+end Examples
 
 end ThermoVerif.Props.C17
